@@ -1,12 +1,9 @@
-; requires: bank coins dec
+; requires: bank coins dec rnsresolve
 ; spec functions for storage payments (C04, C07, C12)
 ; "the price the chain computes": by definition the result of Keeper.GetStorageCost / GetStorageCostKbs for the
 ; current parameters and oracle price (both constant during one handler execution)
 (declare-fun storage_cost (T_storage_Params Int Int) Int)
 (declare-fun storage_cost_kbs (T_storage_Params Int Int) Int)
-; rns resolution as seen by the storage module (RnsKeeper.Resolve; the rns tables do not change inside a storage handler)
-(declare-fun rns_resolve_ok (Str) Bool)
-(declare-fun rns_resolve (Str) Str)
 ; gauge escrow accounts: types.GetGaugeAccount derives the address from sha256("gauge:"+hex(id)) (A-HASH: no collisions
 ; with each other, with module accounts, with the POL account or with user accounts)
 (declare-fun gaugeAddr (Str) Str)
